@@ -1,7 +1,7 @@
 (** Plan layer: the hypotheses of the C16 theorems are satisfiable on a
     non-trivial run, and the precondition cannot be dropped (defect D25). *)
-From Coq Require Import List Arith Bool PeanoNat Lia.
-From MX Require Import Plan.Model Plan.Spec Plan.ProofsBase Plan.ProofsGen.
+From Coq Require Import List Arith Bool PeanoNat Lia ZArith.
+From MX Require Import Plan.Model Plan.Spec Plan.Values Plan.ProofsBase Plan.ProofsGen Plan.ProofsValues.
 Import ListNotations.
 
 (** the model of tests/core/model/test_actions.py (1 = Cells1(), 20..22 =
@@ -74,6 +74,49 @@ Example ex_execute :
 Proof.
   eexists. eexists. split; [vm_compute; reflexivity|]. split; [vm_compute; reflexivity|].
   split; reflexivity.
+Qed.
+
+(** ** values: formulas  base + sum of the calls; inputs 5 -> 100, 40 -> 7,
+    the unrelated calculated 41 holds 1 + 7 *)
+Definition ex_bases : list (nat * Z) :=
+  [(1, 1%Z); (20, 2%Z); (21, 3%Z); (22, 4%Z); (32, 5%Z); (5, 6%Z); (40, 0%Z); (41, 1%Z)].
+Definition ex_fn : formula := sum_formula ex_bases.
+Definition ex_st0v : vstate := lookup_init [(5, (1, 100%Z)); (40, (1, 7%Z)); (41, (2, 8%Z))].
+Definition ex_V : node -> Z :=
+  lookupZ [(1, 1%Z); (20, 3%Z); (21, 106%Z); (22, 110%Z); (32, 116%Z); (5, 100%Z); (40, 7%Z); (41, 8%Z)].
+
+Lemma ex_consistent : consistent ex_g ex_fn ex_st0v ex_V.
+Proof.
+  split.
+  - intros n f v H. unfold ex_st0v in H. cbn [lookup_init] in H.
+    destruct (Nat.eqb 5 n) eqn:E5; [apply Nat.eqb_eq in E5; subst; inversion H; reflexivity|].
+    destruct (Nat.eqb 40 n) eqn:E40; [apply Nat.eqb_eq in E40; subst; inversion H; reflexivity|].
+    destruct (Nat.eqb 41 n) eqn:E41; [apply Nat.eqb_eq in E41; subst; inversion H; reflexivity|]. discriminate.
+  - intros n Hn.
+    destruct (Nat.eq_dec n 1) as [->|H1]; [reflexivity|].
+    destruct (Nat.eq_dec n 20) as [->|H20]; [reflexivity|].
+    destruct (Nat.eq_dec n 21) as [->|H21]; [reflexivity|].
+    destruct (Nat.eq_dec n 22) as [->|H22]; [reflexivity|].
+    destruct (Nat.eq_dec n 32) as [->|H32]; [reflexivity|].
+    destruct (Nat.eq_dec n 5) as [->|H5]; [exfalso; eapply Hn; reflexivity|].
+    destruct (Nat.eq_dec n 40) as [->|H40]; [exfalso; eapply Hn; reflexivity|].
+    destruct (Nat.eq_dec n 41) as [->|H41]; [reflexivity|].
+    assert (E : forall k, n <> k -> Nat.eqb k n = false) by (intros k Hk; apply Nat.eqb_neq; congruence).
+    unfold ex_V, ex_fn, sum_formula, ex_bases, ex_g. cbn [lookupZ preds].
+    rewrite !E by assumption. reflexivity.
+Qed.
+
+(** the target ends with the value of its direct evaluation, as an input *)
+Example ex_values :
+  exists r x xd vd,
+    generate ex_g 10 (erase ex_st0v) [32] 2 ex_ordered = Ok r /\
+    vexecute ex_g ex_fn 10 (g_actions r) (mkvxs ex_st0v []) = Ok x /\
+    veval ex_g ex_fn 10 32 (mkvxs ex_st0v []) = Ok (xd, vd) /\
+    vcache x 32 = Some (Input, vd) /\ vd = 116%Z /\ vd = ex_V 32.
+Proof.
+  eexists. eexists. eexists. eexists.
+  split; [vm_compute; reflexivity|]. split; [vm_compute; reflexivity|]. split; [vm_compute; reflexivity|].
+  split; [vm_compute; reflexivity|]. split; reflexivity.
 Qed.
 
 (** ** D25: without the precondition the statement fails.
